@@ -277,9 +277,13 @@ func cmdCheck(args []string) int {
 			failures = append(failures, &Failure{O: o, Kind: "sat"})
 		default:
 			// retry harder before saying anything
-			r := solve(o.Query, 60, false)
-			if r.Verdict == "unknown" {
-				r = solve(strings.Replace(o.Query, "(set-logic ALL)", "(set-logic ALL)\n(set-option :smt.random_seed 7)", 1), 60, false)
+			retryT := 25
+			if *tier == "thorough" {
+				retryT = 90
+			}
+			r := solve(o.Query, retryT, false)
+			if r.Verdict == "unknown" && *tier == "thorough" {
+				r = solve(strings.Replace(o.Query, "(set-logic ALL)", "(set-logic ALL)\n(set-option :smt.random_seed 7)", 1), retryT, false)
 			}
 			o.Res = &r
 			switch r.Verdict {
